@@ -21,7 +21,9 @@ MAXTASKS = 1
 FLAGSETS = ['GE', 'GEK', 'GEO', 'GDEK', 'GEY', 'GEX', 'GEKO', 'E', 'GDEYK', 'GEBS']
 LISTS = [(['a', 'a/*'], 'GE'), (['*/', 'a/'], 'GEK'), (['{a,b}', '.h'], 'GEB'), (['a|*/a'], 'GES'), (['*', '!a'], 'GEN'),
          (['**', '!*/'], 'GENO'), (['{a,b,.h}'], 'GEBO'), (['a|b|.h'], 'GESO'), (['a', 'b'], 'GEO'),
-         (['a', '*/a'], 'GE'), (['*', '*/*'], 'GEK'), (['a/*', '**/b'], 'GE')]
+         (['a', '*/a'], 'GE'), (['*', '*/*'], 'GEK'), (['a/*', '**/b'], 'GE'),
+         # exclusions only: NEGATEALL supplies the inclusion, the other flags still hold for it
+         (['!a'], 'GENAO'), (['!*/a', '!.h'], 'GENAOK'), (['!zz'], 'ENAO'), (['!a'], 'GENAK'), (['-a'], 'GENMAO')]
 
 
 def is_abs_list(p):
